@@ -619,6 +619,14 @@ func (p *InlineParser) parseBackslash(state *inlineState, start int) (end int) {
 			// Hard line breaks not permitted at end of block.
 			newNode.kind = TextKind
 		} else {
+			// The line ending is part of the hard line break
+			// (otherwise it would be read as a soft line break as well).
+			if newNode.span.End < state.spanEnd() && state.source[newNode.span.End] == '\r' {
+				newNode.span.End++
+			}
+			if newNode.span.End < state.spanEnd() && state.source[newNode.span.End] == '\n' {
+				newNode.span.End++
+			}
 			// Leading spaces at the beginning of the next line are ignored.
 			state.ignoreNextIndent = true
 		}
